@@ -2,7 +2,7 @@
    Only pinned statements, `exact`, Examples by vm_compute, and Print Assumptions. *)
 From Coq Require Import String List NArith ZArith PArith Bool FMapPositive.
 From Sylt Require Import Syntax.Resolved Types.TyGraph Types.Tc Types.Ctx Types.TcInv Types.Reject Types.Mismatch
-  Types.CopyInst Types.Calls Types.CallsDecl Types.BlobFields Types.FieldAssign Types.TwoDecls.
+  Types.CopyInst Types.Calls Types.CallsDecl Types.BlobFields Types.FieldAssign Types.TwoDecls Types.ForwardDecl.
 Import ListNotations.
 Local Open Scope string_scope.
 
@@ -245,6 +245,78 @@ Theorem C03_after_two_declarations : forall (Inv1 Inv2 : st -> Prop) (d1 d2 : st
       (pre ++ d1 :: mid1 ++ d2 :: mid2 ++ SDefinition dname dvar dkind dty (plug_e e (SStatementExpression e sp0) C) dsp :: post)) <> Ok tt.
 Proof. exact TwoDecls.rejected_after_two. Qed.
 
+(* a blob that mentions another blob, in EITHER declaration order (/repo 3c0758d: solve goes through the type declarations
+   once before everything else).  `A :: blob { .., k: B<args>, .. }` (every declaration of field k mentions the blob B), a
+   declaration `B :: blob { .. }` ANYWHERE among the top-level statements -- before A, between A and the use, or after the
+   use --, and an instance `A { .., k: lit, .. }` with a literal (int, float, str, bool, nil) anywhere inside the value of
+   a top-level definition after A: the program is rejected.  Before the fix the order A, B accepted it. *)
+Theorem C03_forward_blob_mention : forall
+    nameA vA spA tvarsA fieldsA k vB nameB spB tvarsB fieldsB pre0 lit post0 self isp ta,
+  In k (map fst fieldsA) ->
+  (forall ksp t, In (k, (ksp, t)) fieldsA -> exists targs tsp, t = TUser vB targs tsp) ->
+  lit_type lit = Some ta -> rigid ta = true ->
+  let dA := SBlob nameA vA spA tvarsA fieldsA false in
+  let dB := SBlob nameB vB spB tvarsB fieldsB false in
+  let e := EBlob vA (pre0 ++ (k, lit) :: post0)%list self isp in
+  forall pre mid post dname dvar dkind dty (C : ectx) dsp sp0 fuel vars,
+    let stmts := (pre ++ dA :: mid ++ SDefinition dname dvar dkind dty (plug_e e (SStatementExpression e sp0) C) dsp :: post)%list in
+    In dB stmts ->
+    typecheck fuel (mkResolved vars stmts) <> Ok tt.
+Proof. exact ForwardDecl.C03_forward_blob_mention_rejected. Qed.
+
+(* the three places of B, spelled out *)
+Theorem C03_blob_mention_both_orders : forall
+    nameA vA spA tvarsA fieldsA k vB nameB spB tvarsB fieldsB pre0 lit post0 self isp ta,
+  In k (map fst fieldsA) ->
+  (forall ksp t, In (k, (ksp, t)) fieldsA -> exists targs tsp, t = TUser vB targs tsp) ->
+  lit_type lit = Some ta -> rigid ta = true ->
+  let dA := SBlob nameA vA spA tvarsA fieldsA false in
+  let dB := SBlob nameB vB spB tvarsB fieldsB false in
+  let e := EBlob vA (pre0 ++ (k, lit) :: post0)%list self isp in
+  forall l1 l2 l3 l4 dname dvar dkind dty (C : ectx) dsp sp0 fuel vars,
+    let use := SDefinition dname dvar dkind dty (plug_e e (SStatementExpression e sp0) C) dsp in
+    typecheck fuel (mkResolved vars (l1 ++ dB :: l2 ++ dA :: l3 ++ use :: l4)) <> Ok tt /\
+    typecheck fuel (mkResolved vars (l1 ++ dA :: l2 ++ dB :: l3 ++ use :: l4)) <> Ok tt /\
+    typecheck fuel (mkResolved vars (l1 ++ dA :: l2 ++ use :: l3 ++ dB :: l4)) <> Ok tt.
+Proof. exact ForwardDecl.C03_blob_mention_both_orders. Qed.
+
+(* the enum analogue: `E :: enum .., V P<args>, .. end`, `P :: blob { .. }` anywhere, `E.V lit` after E: rejected *)
+Theorem C03_forward_enum_mention : forall
+    nameE vE spE tvarsE variants v vB nameB spB tvarsB fieldsB lit vsp ta,
+  In v (map fst variants) ->
+  (forall ksp t, In (v, (ksp, t)) variants -> exists targs tsp, t = TUser vB targs tsp) ->
+  lit_type lit = Some ta -> rigid ta = true ->
+  let dE := SEnum nameE vE spE tvarsE variants in
+  let dB := SBlob nameB vB spB tvarsB fieldsB false in
+  let e := EVariant vE v lit vsp in
+  forall pre mid post dname dvar dkind dty (C : ectx) dsp sp0 fuel vars,
+    let stmts := (pre ++ dE :: mid ++ SDefinition dname dvar dkind dty (plug_e e (SStatementExpression e sp0) C) dsp :: post)%list in
+    In dB stmts ->
+    typecheck fuel (mkResolved vars stmts) <> Ok tt.
+Proof. exact ForwardDecl.C03_forward_enum_mention_rejected. Qed.
+
+(* the placement theorem behind them: d0 a type declaration anywhere (first pass), d1 establishing its invariant under
+   the one of d0 (second pass), e rejected under it *)
+Theorem C03_after_type_declaration : forall (Inv0 Inv1 : st -> Prop) (d0 d1 : stmt) (e : expr),
+  is_type_decl d0 = true ->
+  (forall s s', wf s -> ext s s' -> Inv0 s -> Inv0 s') ->
+  (forall s s', wf s -> ext s s' -> Inv1 s -> Inv1 s') ->
+  (forall kinds g f s u s', wf s -> outer_statement kinds (gfix g) (afix kinds (gfix g) f) d0 ctx_new s = Ok (u, s') -> Inv0 s') ->
+  (forall kinds g f s u s', wf s -> Inv0 s -> outer_statement kinds (gfix g) (afix kinds (gfix g) f) d1 ctx_new s = Ok (u, s') -> Inv1 s') ->
+  (forall kinds g f ctx s, wf s /\ Inv1 s -> notok (r_expr (afix kinds (gfix g) f) e ctx s)) ->
+  forall pre mid post dname dvar dkind dty (C : ectx) dsp sp0 fuel vars,
+    let stmts := (pre ++ d1 :: mid ++ SDefinition dname dvar dkind dty (plug_e e (SStatementExpression e sp0) C) dsp :: post)%list in
+    In d0 stmts ->
+    typecheck fuel (mkResolved vars stmts) <> Ok tt.
+Proof. exact ForwardDecl.rejected_after_type_decl. Qed.
+
+(* a component whose type is known keeps a type of that shape in every instance *)
+Theorem C03_instance_keeps_known_components : forall g a s r s' h x c t,
+  wf s -> copy (gfix g) a s = Ok (r, s') ->
+  head s a = Some h -> kid h x = Some c -> head s c = Some t -> is_unknown t = false ->
+  exists h' c' t', head s' r = Some h' /\ kid h' x = Some c' /\ head s' c' = Some t' /\ same_shape t t' = true.
+Proof. exact CopyInst.copy_known_kids. Qed.
+
 (* two types with components of different leaf types at the same position do not unify *)
 Theorem C03_component_conflict : forall g sp a b s ha hb x ca cb ta tb,
   wf s -> head s a = Some ha -> head s b = Some hb -> kid ha x = Some ca -> kid hb x = Some cb ->
@@ -459,7 +531,39 @@ Example C03_example_blob_field_call_rejects :
   = Err (mkErr KMismatch (spl 3)) [].
 Proof. vm_compute. reflexivity. Qed.
 
+(* A :: blob { b: B } ; B :: blob { x: int } ; start :: fn do A { b: 1 } end -- in both orders, and the well-typed control *)
+Definition declA : stmt := SBlob "A" 1 (spl 1) [] [("b", (spl 1, TUser 2 [] (spl 1)))] false.
+Definition declB : stmt := SBlob "B" 2 (spl 2) [] [("x", (spl 2, TResolved BInt (spl 2)))] false.
+Definition prog_mention (decls : list stmt) (body : list stmt) : resolved :=
+  mkResolved [mkVar 0 "start" sp0 true Const; mkVar 1 "A" (spl 1) true Const; mkVar 2 "B" (spl 2) true Const;
+              mkVar 3 "self" (spl 3) false Const; mkVar 4 "self" (spl 3) false Const]
+             (decls ++ [SDefinition "start" 0 Const (TImplied sp0)
+                          (EFunction "lambda" [] (TResolved BVoid sp0) body false sp0) sp0]).
+Definition bad_inst : list stmt := [SStatementExpression (EBlob 1 [("b", EInt 1 (spl 3))] 3 (spl 3)) (spl 3)].
+Definition good_inst : list stmt :=
+  [SStatementExpression (EBlob 1 [("b", EBlob 2 [("x", EInt 1 (spl 3))] 4 (spl 3))] 3 (spl 3)) (spl 3)].
+Example C03_example_forward_mention_hyps :
+  In "b" (map fst [("b", (spl 1, TUser 2 [] (spl 1)))]) /\
+  (forall ksp t, In ("b", (ksp, t)) [("b", (spl 1, TUser 2 [] (spl 1)))] -> exists targs tsp, t = TUser 2 targs tsp) /\
+  lit_type (EInt 1 (spl 3)) = Some HInt /\ rigid HInt = true /\ is_type_decl declB = true.
+Proof.
+  split; [now left|]. split; [|repeat split].
+  intros ksp t [H|[]]. injection H as _ <-. eauto.
+Qed.
+Example C03_example_forward_mention_rejects :
+  typecheck 60 (prog_mention [declA; declB] bad_inst) = Err (mkErr KMismatch (spl 3)) [] /\
+  typecheck 60 (prog_mention [declB; declA] bad_inst) = Err (mkErr KMismatch (spl 3)) [].
+Proof. split; vm_compute; reflexivity. Qed.
+Example C03_example_forward_mention_ok :
+  typecheck 60 (prog_mention [declA; declB] good_inst) = Ok tt /\ typecheck 60 (prog_mention [declB; declA] good_inst) = Ok tt.
+Proof. split; vm_compute; reflexivity. Qed.
+
 Print Assumptions C03_placement.
+Print Assumptions C03_forward_blob_mention.
+Print Assumptions C03_blob_mention_both_orders.
+Print Assumptions C03_forward_enum_mention.
+Print Assumptions C03_after_type_declaration.
+Print Assumptions C03_instance_keeps_known_components.
 Print Assumptions C03_two_functions.
 Print Assumptions C03_blob_field_call.
 Print Assumptions C03_after_two_declarations.
